@@ -63,7 +63,7 @@ Proof. unfold misses, wmisses; intros w e H. apply orb_true_iff in H. destruct H
 (* ------------------------------------------------------------------ find_ext *)
 
 Lemma kind_eqb_eq : forall a b, kind_eqb a b = true -> a = b.
-Proof. destruct a, b; cbn; intros H; try reflexivity; discriminate. Qed.
+Proof. destruct a, b; cbn; intros H; try reflexivity; try discriminate. apply N.eqb_eq in H. subst. reflexivity. Qed.
 
 Lemma find_ext_spec : forall l o k e, find_ext l o k = Some e -> In e l /\ owner e = o /\ kind_of e = k.
 Proof.
@@ -287,7 +287,7 @@ Proof.
 Qed.
 
 Lemma kind_eqb_refl : forall k, kind_eqb k k = true.
-Proof. destruct k; reflexivity. Qed.
+Proof. destruct k; try reflexivity. cbn. apply N.eqb_refl. Qed.
 
 Lemma fresh_inv_alloc : forall n0 fr s o k n e s',
   fresh_inv n0 fr s -> alloc_ext s o k n = Some (e, s') -> n0 <= next (al s) ->
